@@ -301,6 +301,26 @@ func init() {
 		used(fr, "io.ReadFull (err == nil <=> n == len(buf))")
 		return fr.modelRead(args[1], pc, st, true)
 	}
+	stdModels["bytes.Equal"] = func(fr *Frame, fn *ssa.Function, args []Value, pc *Term, st *State, pos token.Pos, resT types.Type) callResult {
+		used(fr, "bytes.Equal (exact for constant lengths up to 64; otherwise true implies equal lengths)")
+		ex := fr.ex
+		a, b := args[0].(SliceV), args[1].(SliceV)
+		if a.Len.lit && b.Len.lit && a.Len.val.IsInt64() && a.Len.val.Int64() <= 64 {
+			if a.Len.val.Cmp(b.Len.val) != 0 {
+				return callResult{val: BoolV{False}, st: st}
+			}
+			eq := True
+			for i := int64(0); i < a.Len.val.Int64(); i++ {
+				x := ex.elemLoad(st, a, BV(uint64(i), 64)).(IntV).T
+				y := ex.elemLoad(st, b, BV(uint64(i), 64)).(IntV).T
+				eq = And(eq, Eq(x, y))
+			}
+			return callResult{val: BoolV{eq}, st: st}
+		}
+		r := Fresh("bytes.equal", SBool)
+		ex.assume(pc, Implies(r, Eq(a.Len, b.Len)))
+		return callResult{val: BoolV{r}, st: st}
+	}
 	stdModels["crypto/rand.Read"] = func(fr *Frame, fn *ssa.Function, args []Value, pc *Term, st *State, pos token.Pos, resT types.Type) callResult {
 		used(fr, "crypto/rand.Read (fills the buffer with arbitrary bytes; err == nil <=> n == len(buf))")
 		return fr.modelRead(args[0], pc, st, true)
